@@ -205,3 +205,59 @@ Proof.
   intros H. destruct (reach_shape _ _ H) as (chain & hi & ti & Sh).
   exists chain, hi, ti. split; [exact Sh|apply abs_shape, Sh].
 Qed.
+
+Lemma reach_shape_abs evs c :
+  clq_reach evs c ->
+  exists chain hi ti,
+    shape c chain hi ti /\
+    (hi <= ti /\ ti < length chain /\ length chain <= ti + 2) /\
+    clq_abs c = map (valof (q_vals c)) (seg chain hi ti).
+Proof.
+  intros H. destruct (reach_abs evs c H) as (chain & hi & ti & Sh & Ha).
+  exists chain, hi, ti. split; [exact Sh|]. split; [apply Sh|exact Ha].
+Qed.
+
+(* ---------- facts used by the C15 footprint argument ---------- *)
+(* node.val is written once, at allocation: the value array only grows *)
+Lemma vals_append_only c e c' o :
+  clq_exec1 c e = Some (c', o) -> exists ext, q_vals c' = q_vals c ++ ext.
+Proof.
+  unfold clq_exec1. destruct e as [t v|t|t].
+  - destruct (lookup t (q_thr c)); [discriminate|]. intros H; injection H as <- <-.
+    exists []. cbn. rewrite app_nil_r. reflexivity.
+  - destruct (lookup t (q_thr c)); [discriminate|]. intros H; injection H as <- <-.
+    exists []. cbn. rewrite app_nil_r. reflexivity.
+  - destruct (lookup t (q_thr c)) as [l|]; [|discriminate]. unfold goto, panic, ret.
+    destruct (q_pc l);
+      repeat match goal with
+             | |- context [match ?x with _ => _ end] => destruct x
+             | |- context [if ?x then _ else _] => destruct x
+             end; intros H; injection H as <- <-; cbn [q_vals upd_thr];
+      first [exists []; rewrite app_nil_r; reflexivity | eexists; reflexivity].
+Qed.
+
+(* the only plain read of node.val (`return headNext.val, nil`) reads a node that WAS published by
+   a link CAS (it is in the chain) and that this call reached through its own atomic load of head.next *)
+Lemma reach_val_read_published evs c t l :
+  clq_reach evs c -> lookup t (q_thr c) = Some l -> q_pc l = DeqRetVal ->
+  exists chain hi ti x v, shape c chain hi ti /\ q_headNext l = Some x /\ In x chain /\
+                          nth_error (q_vals c) x = Some v.
+Proof.
+  intros H Hl Hpc. destruct (reach_inv _ _ H) as (chain & hi & ti & Sh & Th & _).
+  destruct Th as (_ & Hall & _). pose proof (Hall t l Hl) as Hok. unfold thr_ok in Hok. rewrite Hpc in Hok.
+  destruct Hok as (x & v & H1 & H2 & H3). exists chain, hi, ti, x, v. auto.
+Qed.
+
+(* a node an Enqueue has allocated and not yet linked is referenced by no other call and is not
+   reachable from head / tail: its plain initialisation cannot race *)
+Lemma reach_unpublished_private evs c t l x :
+  clq_reach evs c -> lookup t (q_thr c) = Some l -> owned l = Some x ->
+  exists chain hi ti, shape c chain hi ti /\ ~ In x chain /\
+    forall t2 l2, t2 <> t -> lookup t2 (q_thr c) = Some l2 -> owned l2 <> Some x.
+Proof.
+  intros H Hl Ho. destruct (reach_inv _ _ H) as (chain & hi & ti & Sh & Th & _).
+  destruct Th as (_ & Hall & Hpair). exists chain, hi, ti. split; [exact Sh|]. split.
+  - eapply owned_fresh; eauto.
+  - intros t2 l2 Hne H2 E. destruct (Hpair t t2 l l2 ltac:(congruence) Hl H2) as [Hc _].
+    apply Hc; congruence.
+Qed.
